@@ -25,6 +25,15 @@ CHECKS = {
             "Scores pooled over an inserted slice whose cases are missing in one input are bit-identical with and without it for every metric, the all-missing slice reports NaN, no metric raises; "
             "all missing encodings read back as NaN exactly at the missing cells and give identical scores.",
             "Scores are taken from verif.output.Standard._get_x_y (the code path of -type csv) on in-memory inputs for the insert oracle.", "DESIGN.md section 5, C04"),
+    "C09": ("Hypothesis-generated well-formed text files (grammar over column sets/orders, spellings, separators, comments, sparsity, missing tokens); round-trip oracle: what verif.input.Text reads equals what was written, cell by cell",
+            "Dims, location metadata (by id, or by lat/lon/elev without ids), every cell of obs/fcst/pit/ensemble/cdf/quantile/other arrays, threshold/quantile/member values and variable metadata are compared with the rows written.",
+            "Well-formedness as listed in the evidence assumptions (no blank lines, '#' in column 0, unique coordinates, consistent metadata).", "DESIGN.md section 5, C09"),
+    "C10": ("Hypothesis-generated datasets written both as NetCDF (layout, dtype and missing-encoding variants) and as text; round-trip and differential oracles between the two readers, the text2nc script and content-based detection",
+            "NetCDF attributes equal the spec, both readers agree on dims/metadata/fields/scores, text2nc preserves every value to float32, files with wrong or no extension are detected by content.",
+            "float32-representable numbers; ids 0..n-1 when the location variable is absent; elevation not compared without altitude.", "DESIGN.md section 5, C10"),
+    "C20": ("Hypothesis-generated input files and script options; the scripts are run in-process and their NetCDF output is compared with plain NumPy reference computations and validity predicates",
+            "accumulate (window sums, incomplete windows, -i), ens2prob (cdf range/monotonicity/value, quantile monotonicity/range, PIT value and missingness), expandverif (valid-time matching, nothing elsewhere) and preservation of dims/metadata/untransformed fields.",
+            "Inputs carry the fields each script is documented to handle; observations for expandverif are a function of (valid time, location); times <= 2037.", "DESIGN.md section 5, C20"),
     "C11": ("Hypothesis-generated boundary-heavy datasets; differential against integer civil-calendar bucket arithmetic + partition laws + exhaustive enumeration of date conversions 1900-2100",
             "Axis values and the cases of every slice of all 16 -x dimensions are compared with the model's buckets; slice counts/weighted means add up to the pooled values; csv rows and labels through the real readers; "
             "all 73414 calendar days are enumerated for the conversion functions.",
